@@ -58,6 +58,8 @@ def lean_stage(pid):
                 # the live objects do not carry what the source literals say: the translator's
                 # cross-check (tables vs running implementation) no longer holds
                 res["broken"].append(f"translator cross-check: {msg}"[:200])
+        for msg in ((res["regenerated"] or {}).get("cropfull") or {}).get("cropfull_problems") or []:
+            res["broken"].append(f"translator cross-check: {msg}"[:200])
     except Exception as e:  # noqa: BLE001
         res["regenerated"] = f"translator failed: {type(e).__name__}: {e}"
         res["broken"].append("translator: " + str(res["regenerated"])[:200])
